@@ -322,6 +322,19 @@ def big_record_scenarios(rng, tag, n):
     return out
 
 
+def long_name_scenarios(rng, tag, n):
+    """ASCII logins whose user name arrives in a CONTINUE and is close to the largest user message a packet can carry:
+    the reply that quotes the name may not fit a server message any more (found by the round-8 sub-agent of C07)"""
+    cfg = base_cfg(rng, tag)
+    out = []
+    for i, ln in enumerate([65520, 65500, 65513, 65531, 65512, 40000][:n]):
+        name = "".join(rng.choice("abcdefghij") for _ in range(ln))
+        script = ascii_login(name, "pw-" + tag)
+        steps = session_steps(1, i % 4, script, fl=1) + session_steps(1, (i + 1) % 4, pap_login("alice", "alice-pw-" + tag), fl=1)
+        out.append({"id": "longname-%d" % i, "cfg": cfg, "conns": [{"c": 1, "addr": "10.1.0.5"}], "steps": steps, "iso": False, "log": False})
+    return out
+
+
 def repeated_rule_scenarios(rng, tag, n):
     """command rules that are met again and again by the same request: a rule whose only pattern does not compile (the
     request is refused every time), and rules whose verdict depends on a word being there twice"""
@@ -796,6 +809,8 @@ def collect(ctx, prop):
         scen += repeated_rule_scenarios(rng, tag, 20 if quick else 300)
     if prop in ("C07", "C11"):
         scen += many_args_scenarios(rng, tag, 40 if quick else 600)
+    if prop in ("C07", "C10", "C14"):
+        scen += long_name_scenarios(rng, tag, 3 if quick else 6)
     if prop == "C12":
         scen += overlap_c12(rng, tag, 200 if quick else 4000)
         scen += big_record_scenarios(rng, tag, 5 if quick else 20)
